@@ -309,7 +309,11 @@ def run(ctx):
         for variant, (tag, kinds) in sorted(wtab.items()):
             rv = rtab.get(tag)
             ok = rv is not None and variant in rv[0] and [kind_class(k) for k in kinds] == [kind_class(k) for k in rv[1]]
-            ctx.ob("W1", "data variant|%s" % variant, ok, wd.where, "writer: %s -> tag %s then %s; reader tag %s -> %s" % (variant, tag, kinds, tag, rv))
+            # the reader must not read an integer into fewer bits than the writer wrote it from (W4 for the variant payloads)
+            narrowed = [(kw, kr) for kw, kr in zip(kinds, rv[1] if rv else ()) if kw in wire.UINT_BITS and kr in wire.UINT_BITS and
+                        wire.UINT_BITS[kr] < wire.UINT_BITS[kw]]
+            ctx.ob("W1", "data variant|%s" % variant, ok and not narrowed, wd.where, "writer: %s -> tag %s then %s; reader tag %s -> %s%s" % (
+                variant, tag, kinds, tag, rv, ("; reader narrows %s" % narrowed) if narrowed else ""))
         # read_data reads the tag as u8 and hands it to the payload reader
         rdata = [f for f in F.fn_list if f.path.endswith("::read_data") and "DefaultProtocolReader" in f.path]
         ok = bool(rdata) and any(c.get("m") == "read_data_value_payload" for c in hirq.walk(rdata[0].hir) if c.get("k") == "mcall")
